@@ -58,9 +58,11 @@ order (`same_up_to_order_transports`); `process_end_to_end_via_surviving` (the s
 obtained as corollaries of the second group.
 
 What is not proved here: nothing about what the link stage reports under two map orders beyond its
-presence; the runner's executable verdict now judges schemas with several statements per vertex over
-`survivorGraph` (driver `spec.ident`), except two such statements within ONE (sub)module text, which
-the dump items cannot tell apart (still "outside": model and Go are compared only).
+presence.  The runner's executable verdict (driver `spec.ident`) now judges schemas with several
+statements per vertex too, over `survivorGraph` and the items of the surviving statements; several
+such statements within ONE (sub)module text give dump items the driver cannot tell apart, and of
+such a group it asks that one item carries the right list (model and Go are compared item by item
+in any case).
 -/
 namespace Goyang.Props.C11
 open Goyang.Model Goyang.Model.Identity
